@@ -1,6 +1,7 @@
 # -*- coding: utf-8 -*-
 
 from concurrent.futures import Future
+from threading import Lock
 
 from ..executors import Executors
 from ..common import copy_exception
@@ -74,6 +75,30 @@ def f_return_cancelled():
     f.cancel()
     f.set_running_or_notify_cancel()
     return f
+
+
+class OutputFuture(Future):
+    # A future which is not owned by any executor, used as the output of
+    # functions combining several futures.
+    #
+    # With a future owned by an executor, the executor is expected to call
+    # set_running_or_notify_cancel() at some point after a cancel, which is
+    # what releases callers blocked in concurrent.futures.wait() or
+    # as_completed(). Nobody would do that for these futures, so cancel()
+    # has to do it.
+    def __init__(self):
+        super(OutputFuture, self).__init__()
+        self.__notify_lock = Lock()
+        self.__notified = False
+
+    def cancel(self):
+        if not super(OutputFuture, self).cancel():
+            return False
+        with self.__notify_lock:
+            if not self.__notified:
+                self.__notified = True
+                self.set_running_or_notify_cancel()
+        return True
 
 
 class WeakCallback(object):
